@@ -18,6 +18,7 @@ RULE = (
     "(rule, order), convergence at the highest orders, start-corner / renumbering / rigid-rotation / lonlat-vs-xyz "
     "invariance, additivity under a drawn diagonal split, cached face_areas vs fresh default after a drawn history of "
     "other area calls; (c) closed hull meshes with all faces <=65 degrees: per-face accuracy, face renumbering, 4*pi "
+    "tiling, and equal areas when the same mesh carries Cartesian node coordinates on a sphere of radius 2.5 or 6371229. "
     "tiling. Non-trivial = face is not a triangle, or touches a pole / the antimeridian, or a non-default order is "
     "used; distinct by case hash."
 )
